@@ -9,9 +9,18 @@ Lemma fact_levels : 1 <= NODE_LEVELS /\ 0 <= LADDER_FOLDS /\ 0 <= SUFFIX_FOLDS /
 Proof. vm_compute. intuition discriminate. Qed.
 Lemma fact_simple_escapes : forallb (fun kv => (0 <=? snd kv) && (snd kv <=? UCHAR_MAX)) SIMPLE_ESCAPES = true.
 Proof. vm_compute. reflexivity. Qed.
-Lemma fact_domains : 0 <= DEC3_LEAD_MAX <= 9 /\ 99 <= UCHAR_MAX /\ 16 * 15 + 15 <= UCHAR_MAX /\ 10 <= UCHAR_MAX /\
-  0 <= MAXUTF < 2 ^ 64.
+Lemma fact_domains : 99 <= UCHAR_MAX /\ 16 * 15 + 15 <= UCHAR_MAX /\ 10 <= UCHAR_MAX /\ 0 <= MAXUTF < 2 ^ 64.
 Proof. vm_compute. intuition discriminate. Qed.
+(* the repaired shapes of calcline and of the \u rule are in the source *)
+Lemma fact_shapes : CALCLINE_EXCLUSIVE = true /\ U_BOUNDED = true.
+Proof. split; reflexivity. Qed.
+Lemma fact_u : 0 <= U_LEAD_MAX <= 9 /\ 0 <= U_TAIL_DIGITS /\ (U_LEAD_MAX + 1) * 16 ^ U_TAIL_DIGITS - 1 <= MAXUTF.
+Proof. vm_compute. intuition discriminate. Qed.
+Definition dec3_alt_ok (a : (Z * Z) * (Z * Z) * (Z * Z)) : bool :=
+  let '(r1, r2, r3) := a in
+  (0 <=? fst r1) && (0 <=? fst r2) && (0 <=? fst r3) && (100 * snd r1 + 10 * snd r2 + snd r3 <=? UCHAR_MAX).
+Lemma fact_dec3 : forallb dec3_alt_ok DEC3_ALTS = true.
+Proof. vm_compute. reflexivity. Qed.
 
 (* ------------------------------------------------------------------ *)
 (* calcline *)
@@ -129,12 +138,20 @@ Definition no_nl (l : list Z) : Prop := forall x, In x l -> x <> NL.
 Lemma is_nl_false : forall x, is_nl x = false -> x <> NL.
 Proof. intros x H. unfold is_nl in H. apply Z.eqb_neq in H. assumption. Qed.
 
+Lemma calc_split_range : forall p, 0 <= p -> 0 <= calc_split p <= p.
+Proof. intros p H. unfold calc_split. destruct CALCLINE_EXCLUSIVE; [|lia]. destruct (0 <? p) eqn:E; [apply Z.ltb_lt in E|]; lia. Qed.
+Lemma calc_split_exclusive : forall p, 1 <= p -> calc_split p = p - 1.
+Proof.
+  intros p H. unfold calc_split. destruct fact_shapes as [F _]. rewrite F.
+  destruct (0 <? p) eqn:E; [reflexivity | apply Z.ltb_ge in E; lia].
+Qed.
+
 Theorem calcline_spec : forall text pos c, calcline text pos = Some c ->
-  let p := Z.min pos (len text) in
-  0 <= pos /\
+  let p := Z.min pos (len text) in let q := calc_split p in
+  0 <= pos /\ 0 <= q <= p /\
   1 <= c_lineno c <= lines text /\
-  c_lineno c = count_nl (firstn (Z.to_nat p) text) + 1 /\
-  0 <= c_colno c <= len (c_line c) /\
+  c_lineno c = count_nl (firstn (Z.to_nat q) text) + 1 /\
+  0 <= c_colno c <= len (c_line c) + (p - q) /\
   c_linestart c - 1 + c_colno c = p /\
   c_lineend c = c_linestart c - 1 + len (c_line c) /\
   no_nl (c_line c) /\
@@ -142,21 +159,22 @@ Theorem calcline_spec : forall text pos c, calcline text pos = Some c ->
   (c_linestart c = 1 \/ nth (Z.to_nat (c_linestart c - 2)) text 0 = NL) /\
   (skipn (Z.to_nat (c_lineend c)) text = [] \/ exists r, skipn (Z.to_nat (c_lineend c)) text = NL :: r).
 Proof.
-  intros text pos c H p. unfold calcline in H.
+  intros text pos c H p q. unfold calcline in H.
   destruct (pos <? 0) eqn:E; [discriminate|]. apply Z.ltb_ge in E.
-  fold p in H. inversion H; subst c; clear H. simpl.
+  fold p in H. fold q in H. inversion H; subst c; clear H. simpl.
   pose proof (len_nonneg _ text) as Ln.
   assert (Pr : 0 <= p <= len text) by (unfold p; lia).
-  set (prefix := firstn (Z.to_nat p) text) in *.
-  set (rest := skipn (Z.to_nat p) text) in *.
-  assert (Lp : len prefix = p) by (apply firstn_len; assumption).
+  pose proof (calc_split_range p ltac:(lia)) as Qr. fold q in Qr.
+  set (prefix := firstn (Z.to_nat q) text) in *.
+  set (rest := skipn (Z.to_nat q) text) in *.
+  assert (Lp : len prefix = q) by (apply firstn_len; lia).
   pose proof (last_nl_range prefix) as LR. rewrite Lp in LR.
   destruct (take_line_split rest) as [TS TE].
   set (tail := take_line rest) in *.
-  assert (Lsk : len (skipn (Z.to_nat (last_nl prefix)) prefix) = p - last_nl prefix).
+  assert (Lsk : len (skipn (Z.to_nat (last_nl prefix)) prefix) = q - last_nl prefix).
   { unfold len. rewrite skipn_length. unfold len in Lp. lia. }
-  split; [assumption|]. split.
-  { unfold lines. pose proof (count_nl_nonneg prefix). pose proof (count_nl_firstn_le (Z.to_nat p) text). fold prefix in H0. lia. }
+  split; [assumption|]. split; [assumption|]. split.
+  { unfold lines. pose proof (count_nl_nonneg prefix). pose proof (count_nl_firstn_le (Z.to_nat q) text). fold prefix in H0. lia. }
   split; [reflexivity|]. split.
   { rewrite len_app, Lsk. pose proof (len_nonneg _ tail). lia. }
   split; [lia|]. split.
@@ -167,7 +185,7 @@ Proof.
     - eapply take_line_no_nl; eassumption. }
   split.
   { replace (last_nl prefix + 1 - 1) with (last_nl prefix) by lia.
-    rewrite <- (firstn_skipn (Z.to_nat p) text) at 1. fold prefix rest.
+    rewrite <- (firstn_skipn (Z.to_nat q) text) at 1. fold prefix rest.
     rewrite <- (firstn_skipn (Z.to_nat (last_nl prefix)) prefix) at 1.
     assert (FF : firstn (Z.to_nat (last_nl prefix)) prefix = firstn (Z.to_nat (last_nl prefix)) text).
     { subst prefix. apply firstn_firstn_le. lia. }
@@ -179,48 +197,42 @@ Proof.
     replace (last_nl prefix + 1 - 2) with (last_nl prefix - 1) by lia.
     pose proof (at_last_nl prefix ltac:(lia)) as A.
     rewrite <- A. symmetry. subst prefix. apply nth_firstn_lt. lia. }
-  { replace (Z.to_nat (p + len tail)) with (Z.to_nat p + length tail)%nat by (unfold len; lia).
+  { replace (Z.to_nat (q + len tail)) with (Z.to_nat q + length tail)%nat by (unfold len; lia).
     rewrite <- skipn_skipn'. fold rest. exact TE. }
 Qed.
 
-(* column >= 1 exactly when the (clamped) position is not on a newline *)
-Theorem calcline_col0_iff : forall text pos c, calcline text pos = Some c ->
-  let p := Z.min pos (len text) in
-  (c_colno c = 0 <-> (p = 0 \/ last (firstn (Z.to_nat p) text) 0 = NL)).
+(* full strength: for every non-empty text and every position 1..|text|+1 the column lies in
+   1..|line|+1 (a position on a newline is the column just past the end of its line) *)
+Definition calcline_col_full : Prop := forall text pos c, 1 <= pos <= len text + 1 -> 1 <= len text ->
+  calcline text pos = Some c -> 1 <= c_colno c <= len (c_line c) + 1.
+Theorem calcline_col : calcline_col_full.
 Proof.
-  intros text pos c H p. unfold calcline in H.
-  destruct (pos <? 0) eqn:E; [discriminate|]. apply Z.ltb_ge in E.
-  fold p in H. inversion H; subst c; clear H. simpl.
-  pose proof (len_nonneg _ text) as Ln.
-  assert (Pr : 0 <= p <= len text) by (unfold p; lia).
-  set (prefix := firstn (Z.to_nat p) text) in *.
-  assert (Lp : len prefix = p) by (apply firstn_len; assumption).
-  pose proof (last_nl_full_iff prefix) as F. rewrite Lp in F.
-  split.
-  - intros H. assert (H' : last_nl prefix = p) by lia. apply F in H'. destruct H' as [H' | H']; [|right; assumption].
-    left. rewrite H' in Lp. unfold len in Lp. simpl in Lp. lia.
-  - intros [H | H].
-    + assert (prefix = []) by (unfold prefix; rewrite H; reflexivity).
-      assert (last_nl prefix = p) by (apply F; left; assumption). lia.
-    + assert (last_nl prefix = p) by (apply F; right; assumption). lia.
+  intros text pos c Hp Hl H. pose proof (calcline_spec text pos c H) as S. cbv zeta in S.
+  assert (P1 : 1 <= Z.min pos (len text)) by lia.
+  rewrite (calc_split_exclusive _ P1) in S.
+  destruct S as (_ & _ & _ & _ & C & LS & _).
+  unfold calcline in H. destruct (pos <? 0); [discriminate|]. inversion H; subst c; clear H. simpl in *.
+  rewrite (calc_split_exclusive _ P1) in *.
+  pose proof (last_nl_range (firstn (Z.to_nat (Z.min pos (len text) - 1)) text)) as LR.
+  rewrite firstn_len in LR by (pose proof (len_nonneg _ text); lia). lia.
 Qed.
 
-(* full-strength column statement and its refutation on the code as it is *)
-Definition calcline_col_full : Prop := forall text pos c, 1 <= pos <= len text + 1 ->
-  calcline text pos = Some c -> 1 <= c_colno c <= len (c_line c) + 1.
-Lemma calcline_col_refuted : ~ calcline_col_full.
+(* column 0 is reported only for position 0 / the empty text *)
+Theorem calcline_col0_iff : forall text pos c, calcline text pos = Some c ->
+  (c_colno c = 0 <-> Z.min pos (len text) = 0).
 Proof.
-  intro F. specialize (F [97; 10; 98] 2 (mk_calc 2 0 [98] 3 3)).
-  assert (1 <= 0 <= len [98] + 1); [|lia]. apply F; [vm_compute; split; discriminate | vm_compute; reflexivity].
-Qed.
-Lemma calcline_col_partial : forall text pos c, calcline text pos = Some c ->
-  let p := Z.min pos (len text) in
-  1 <= p -> last (firstn (Z.to_nat p) text) 0 <> NL -> 1 <= c_colno c <= len (c_line c).
-Proof.
-  intros text pos c H p P1 Hl. pose proof (calcline_spec text pos c H) as S.
-  pose proof (calcline_col0_iff text pos c H) as Z0. fold p in S, Z0.
-  destruct S as (_ & _ & _ & C & _). assert (c_colno c <> 0); [|lia].
-  intro F. apply Z0 in F. destruct F; [lia | contradiction].
+  intros text pos c H. pose proof (calcline_spec text pos c H) as S. cbv zeta in S.
+  destruct S as (P0 & Q & _ & _ & C & LS & _).
+  unfold calcline in H. destruct (pos <? 0); [discriminate|]. inversion H; subst c; clear H. simpl in *.
+  set (p := Z.min pos (len text)) in *.
+  split; intros E.
+  - destruct (Z.eq_dec p 0) as [Z0|Z0]; [assumption|]. exfalso.
+    assert (P1 : 1 <= p) by (pose proof (len_nonneg _ text); unfold p in *; lia).
+    rewrite (calc_split_exclusive _ P1) in *.
+    pose proof (last_nl_range (firstn (Z.to_nat (p - 1)) text)) as LR.
+    rewrite firstn_len in LR by (pose proof (len_nonneg _ text); unfold p in *; lia). lia.
+  - rewrite E in *. assert (calc_split 0 = 0) by (unfold calc_split; destruct CALCLINE_EXCLUSIVE; reflexivity).
+    rewrite H in *. simpl. reflexivity.
 Qed.
 
 (* ------------------------------------------------------------------ *)
@@ -256,125 +268,146 @@ Proof.
 Qed.
 
 Definition escape_total : Prop := forall l, esc_defined (decode_escape l).
-Lemma escape_total_refuted_dec : ~ escape_total.
-Proof. intro F. specialize (F [50; 53; 54; 34]). vm_compute in F. destruct F as [_ F]. apply F. reflexivity. Qed.
-Lemma escape_total_refuted_u : ~ escape_total.
+
+Local Opaque Z.mul Z.add Z.sub Z.pow.
+Lemma dec3_match_range : forall alts d1 d2 d3, forallb dec3_alt_ok alts = true ->
+  is_dec d1 = true -> is_dec d2 = true -> is_dec d3 = true ->
+  dec3_match alts d1 d2 d3 = true -> 0 <= 100 * (d1 - 48) + 10 * (d2 - 48) + (d3 - 48) <= UCHAR_MAX.
 Proof.
-  intro F. specialize (F [117; 123; 56; 48; 48; 48; 48; 48; 48; 48; 125; 34]). vm_compute in F.
-  destruct F as [_ F]. apply F. reflexivity.
+  induction alts as [|[[r1 r2] r3] rest IH]; simpl; intros d1 d2 d3 F D1 D2 D3 M; [discriminate|].
+  apply andb_prop in F. destruct F as [F1 F2].
+  apply is_dec_range in D1. apply is_dec_range in D2. apply is_dec_range in D3.
+  apply orb_prop in M. destruct M as [M | M].
+  - unfold dec3_alt_ok in F1. unfold in_rng in M.
+    apply andb_prop in M. destruct M as [M M3]. apply andb_prop in M. destruct M as [M1 M2].
+    apply andb_prop in M1. destruct M1 as [A1 B1]. apply andb_prop in M2. destruct M2 as [A2 B2].
+    apply andb_prop in M3. destruct M3 as [A3 B3].
+    apply andb_prop in F1. destruct F1 as [F1 G4]. apply andb_prop in F1. destruct F1 as [F1 G3].
+    apply andb_prop in F1. destruct F1 as [G1 G2].
+    apply Z.leb_le in A1, B1, A2, B2, A3, B3, G1, G2, G3, G4. lia.
+  - apply IH; try assumption; unfold is_dec; apply andb_true_intro; split; apply Z.leb_le; lia.
 Qed.
 
-(* a 3-digit decimal escape: the only way tochar can be called outside its domain *)
-Definition dec3 (l : list Z) (v : Z) (r : list Z) : Prop :=
-  exists d1 d2 d3, l = d1 :: d2 :: d3 :: r /\ is_dec d1 = true /\ is_dec d2 = true /\ is_dec d3 = true /\
-    d1 - 48 <= DEC3_LEAD_MAX /\ v = 100 * (d1 - 48) + 10 * (d2 - 48) + (d3 - 48).
-
-Local Opaque Z.mul Z.add Z.sub.
-Theorem escape_char_domain : forall l v r, decode_escape l = EChar v r ->
-  0 <= v <= Z.max UCHAR_MAX (100 * DEC3_LEAD_MAX + 99) /\ (UCHAR_MAX < v -> dec3 l v r).
+(* bound on tonumber(s,16) for hex digit strings: the wrap-around can only make it smaller *)
+Lemma fold_hex_le : forall l n, 0 <= n -> forallb is_hex l = true ->
+  0 <= fold_left (fun n c => (n * 16 + hexv c) mod 2 ^ 64) l n <= n * 16 ^ len l + 16 ^ len l - 1.
 Proof.
-  intros l v r H. pose proof fact_domains as (D1 & D2 & D3 & D4 & D5).
-  unfold decode_escape in H. destruct l as [|c t]; [discriminate|].
-  destruct ((c =? 92) || (c =? 39) || (c =? 34)); [discriminate|].
-  destruct (assoc c SIMPLE_ESCAPES) as [w|] eqn:A.
-  { inversion H; subst. apply assoc_simple_range in A. split; [lia | intros; lia]. }
-  destruct (c =? 120).
-  { destruct t as [|h1 [|h2 t']]; try discriminate.
-    destruct (is_hex h1) eqn:X1; [|discriminate]. destruct (is_hex h2) eqn:X2; [|discriminate].
-    cbn [andb] in H. inversion H; subst. apply hexv_range in X1. apply hexv_range in X2. split; [lia | intros; lia]. }
-  destruct (c =? 117).
-  { destruct t as [|b t']; [discriminate|]. destruct (b =? 123) eqn:B; [|destruct b; try discriminate; destruct p; try discriminate; repeat (destruct p; try discriminate)].
-    apply Z.eqb_eq in B. subst b. destruct (span_hex t') as [[|d ds] [|q qs]]; try discriminate.
-    destruct q; try discriminate. repeat (destruct p; try discriminate). }
-  destruct (c =? 122); [discriminate|].
-  destruct (is_dec c) eqn:Dc.
-  { apply is_dec_range in Dc.
-    destruct t as [|d2 t2].
-    { inversion H; subst. split; [lia | intros; lia]. }
-    destruct (is_dec d2) eqn:D2c.
-    2: { inversion H; subst. split; [lia | intros; lia]. }
-    pose proof (is_dec_range _ D2c) as R2.
-    destruct t2 as [|d3 t3].
-    { inversion H; subst. split; [lia | intros; lia]. }
-    destruct (is_dec d3) eqn:D3c.
-    2: { inversion H; subst. split; [lia | intros; lia]. }
-    pose proof (is_dec_range _ D3c) as R3.
-    destruct (c - 48 <=? DEC3_LEAD_MAX) eqn:Q; [|discriminate]. apply Z.leb_le in Q.
-    inversion H; subst. split; [lia|]. intros _. exists c, d2, d3. repeat split; try assumption.
-    unfold is_dec. apply andb_true_intro. split; apply Z.leb_le; lia. }
-  destruct (c =? 10).
-  { destruct t as [|b t']; [inversion H; subst; split; [lia | intros; lia]|].
-    destruct (b =? 13) eqn:B.
-    - apply Z.eqb_eq in B. subst b. inversion H; subst. split; [lia | intros; lia].
-    - assert (E : match b with 13 => EChar 10 t' | _ => EChar 10 (b :: t') end = EChar 10 (b :: t')).
-      { apply Z.eqb_neq in B. destruct b; try reflexivity. repeat (destruct p; try reflexivity). contradiction. }
-      rewrite E in H. inversion H; subst. split; [lia | intros; lia]. }
-  destruct (c =? 13); [|discriminate].
-  destruct t as [|b t']; [inversion H; subst; split; [lia | intros; lia]|].
-  destruct (b =? 10) eqn:B.
-  - apply Z.eqb_eq in B. subst b. inversion H; subst. split; [lia | intros; lia].
-  - assert (E : match b with 10 => EChar 10 t' | _ => EChar 10 (b :: t') end = EChar 10 (b :: t')).
-    { apply Z.eqb_neq in B. destruct b; try reflexivity. repeat (destruct p; try reflexivity). contradiction. }
-    rewrite E in H. inversion H; subst. split; [lia | intros; lia].
+  induction l as [|c r IH]; intros n Hn F.
+  - simpl. unfold len. simpl. lia.
+  - simpl in F. apply andb_prop in F. destruct F as [Fc Fr]. pose proof (hexv_range c Fc) as Hc.
+    simpl fold_left. rewrite len_cons.
+    assert (P : 0 < 16 ^ len r) by (apply Z.pow_pos_nonneg; [lia | apply len_nonneg]).
+    rewrite Z.pow_add_r by (pose proof (len_nonneg _ r); lia). rewrite Z.pow_1_r.
+    set (n' := (n * 16 + hexv c) mod 2 ^ 64).
+    assert (N : 0 <= n' <= n * 16 + 15).
+    { unfold n'. split; [apply Z.mod_pos_bound; reflexivity|].
+      assert ((n * 16 + hexv c) mod 2 ^ 64 <= n * 16 + hexv c) by (apply Z.mod_le; [lia | reflexivity]). lia. }
+    specialize (IH n' ltac:(lia) Fr). nia.
 Qed.
 
-Local Transparent Z.mul Z.add Z.sub.
-(* utf8.char is called with tonumber's wrapped value: defined exactly when that is <= MAXUTF *)
-Lemma span_hex_app : forall l a b, span_hex l = (a, b) -> l = a ++ b /\ forallb is_hex a = true.
+Lemma span_zero_spec : forall l zs r, span_zero l = (zs, r) -> l = zs ++ r /\ forallb (fun c => c =? 48) zs = true.
 Proof.
-  induction l as [|c r IH]; simpl; intros a b H.
+  induction l as [|c t IH]; simpl; intros zs r H.
   - inversion H; subst. split; reflexivity.
-  - destruct (is_hex c) eqn:X.
-    + destruct (span_hex r) as [a' b'] eqn:S. inversion H; subst. destruct (IH a' b eq_refl) as [E F].
-      split; [simpl; f_equal; exact E | simpl; rewrite X; exact F].
+  - destruct (c =? 48) eqn:E.
+    + destruct (span_zero t) as [a b] eqn:S. inversion H; subst. destruct (IH a r eq_refl) as [A B].
+      split; [simpl; f_equal; exact A | simpl; rewrite E; exact B].
     + inversion H; subst. split; reflexivity.
 Qed.
-
-Theorem escape_utf8_domain : forall l v r, decode_escape l = EUtf8 v r ->
-  0 <= v < 2 ^ 64 /\
-  exists digs, digs <> [] /\ forallb is_hex digs = true /\ v = hexval digs /\ l = 117 :: 123 :: digs ++ 125 :: r.
+Lemma fold_zeros : forall zs, forallb (fun c => c =? 48) zs = true ->
+  fold_left (fun n c => (n * 16 + hexv c) mod 2 ^ 64) zs 0 = 0.
 Proof.
-  intros l v r H. unfold decode_escape in H. destruct l as [|c t]; [discriminate|].
-  destruct ((c =? 92) || (c =? 39) || (c =? 34)); [discriminate|].
-  destruct (assoc c SIMPLE_ESCAPES); [discriminate|].
+  induction zs as [|c r IH]; simpl; intros F; [reflexivity|]. apply andb_prop in F. destruct F as [Fc Fr].
+  apply Z.eqb_eq in Fc. subst c. replace ((0 * 16 + hexv 48) mod 2 ^ 64) with 0 by reflexivity. auto.
+Qed.
+Lemma take_hex_exact_spec : forall k l a b, take_hex_exact k l = Some (a, b) ->
+  forallb is_hex a = true /\ length a = k.
+Proof.
+  induction k; simpl; intros l a b H.
+  - inversion H; subst. split; reflexivity.
+  - destruct l as [|c r]; [discriminate|]. destruct (is_hex c) eqn:X; [|discriminate].
+    destruct (take_hex_exact k r) as [[a' b']|] eqn:T; [|discriminate]. inversion H; subst.
+    destruct (IHk _ _ _ T) as [A B]. split; [simpl; rewrite X; exact A | simpl; f_equal; exact B].
+Qed.
+Lemma take_hex_upto_spec : forall k l a b, take_hex_upto k l = (a, b) ->
+  forallb is_hex a = true /\ (length a <= k)%nat.
+Proof.
+  induction k; simpl; intros l a b H.
+  - inversion H; subst. split; [reflexivity | simpl; lia].
+  - destruct l as [|c r]; [inversion H; subst; split; [reflexivity | simpl; lia]|].
+    destruct (is_hex c) eqn:X.
+    + destruct (take_hex_upto k r) as [a' b'] eqn:T. inversion H; subst.
+      destruct (IHk _ _ _ T) as [A B]. split; [simpl; rewrite X; exact A | simpl; lia].
+    + inversion H; subst. split; [reflexivity | simpl; lia].
+Qed.
+
+Lemma u_bounded_value : forall r1 digs r3, u_bounded_digits r1 = Some (digs, r3) -> 0 <= hexval digs <= MAXUTF.
+Proof.
+  intros r1 digs r3 H. pose proof fact_u as ((L0 & L9) & T0 & B).
+  unfold u_bounded_digits in H. destruct r1 as [|h t]; [discriminate|].
+  destruct (is_hex h); [|discriminate].
+  destruct (span_zero (h :: t)) as [zs r2] eqn:SZ. destruct (span_zero_spec _ _ _ SZ) as [_ ZS].
+  assert (PT : 0 < 16 ^ U_TAIL_DIGITS) by (apply Z.pow_pos_nonneg; lia).
+  assert (HV : forall ds, hexval (zs ++ ds) = fold_left (fun n c => (n * 16 + hexv c) mod 2 ^ 64) ds 0).
+  { intros ds. unfold hexval. rewrite fold_left_app. rewrite fold_zeros by assumption. reflexivity. }
+  assert (ALT2 : forall ds r, take_hex_upto (Z.to_nat U_TAIL_DIGITS) r2 = (ds, r) -> 0 <= hexval (zs ++ ds) <= MAXUTF).
+  { intros ds r T. destruct (take_hex_upto_spec _ _ _ _ T) as [Fh Ln]. rewrite HV.
+    pose proof (fold_hex_le ds 0 ltac:(lia) Fh) as Bd.
+    assert (16 ^ len ds <= 16 ^ U_TAIL_DIGITS) by (apply Z.pow_le_mono_r; unfold len; lia). nia. }
+  destruct r2 as [|d t2].
+  { destruct (take_hex_upto (Z.to_nat U_TAIL_DIGITS) []) as [ds r] eqn:T. simpl in H. try rewrite T in H. inversion H; subst. eapply ALT2; eassumption. }
+  destruct ((48 <=? d) && (d <=? 48 + U_LEAD_MAX)) eqn:Ld.
+  2: { destruct (take_hex_upto (Z.to_nat U_TAIL_DIGITS) (d :: t2)) as [ds r] eqn:T. simpl in H. try rewrite T in H. inversion H; subst. eapply ALT2; eassumption. }
+  destruct (take_hex_exact (Z.to_nat U_TAIL_DIGITS) t2) as [[ds r]|] eqn:TE.
+  2: { destruct (take_hex_upto (Z.to_nat U_TAIL_DIGITS) (d :: t2)) as [ds r] eqn:T. simpl in H. try rewrite T in H. inversion H; subst. eapply ALT2; eassumption. }
+  inversion H; subst. clear H. destruct (take_hex_exact_spec _ _ _ _ TE) as [Fh Ln].
+  apply andb_prop in Ld. destruct Ld as [D1 D2]. apply Z.leb_le in D1, D2.
+  assert (Hd : hexv d = d - 48) by (unfold hexv, is_dec; replace ((48 <=? d) && (d <=? 57)) with true; [reflexivity | symmetry; apply andb_true_intro; split; apply Z.leb_le; lia]).
+  rewrite HV. simpl fold_left. rewrite Hd. replace (0 * 16 + (d - 48)) with (d - 48) by lia.
+  rewrite (Z.mod_small (d - 48)) by (split; [lia | apply Z.le_lt_trans with 9; [lia | reflexivity]]).
+  pose proof (fold_hex_le ds (d - 48) ltac:(lia) Fh) as Bd.
+  assert (EL : len ds = U_TAIL_DIGITS) by (unfold len; lia). rewrite EL in Bd. nia.
+Qed.
+
+(* full strength: every escape the grammar accepts is inside the domain of its callback *)
+Theorem escape_total_holds : escape_total.
+Proof.
+  intros l. pose proof fact_domains as (D2 & D3 & D4 & D5). pose proof fact_shapes as [_ UB].
+  unfold decode_escape. destruct l as [|c t]; [exact I|].
+  destruct ((c =? 92) || (c =? 39) || (c =? 34)); [exact I|].
+  destruct (assoc c SIMPLE_ESCAPES) as [w|] eqn:A.
+  { simpl. apply assoc_simple_range in A. lia. }
   destruct (c =? 120).
-  { destruct t as [|h1 [|h2 t']]; try discriminate. destruct (is_hex h1 && is_hex h2); discriminate. }
-  destruct (c =? 117) eqn:C.
-  { apply Z.eqb_eq in C. subst c. destruct t as [|b t']; [discriminate|].
-    destruct (b =? 123) eqn:B.
-    2: { exfalso. apply Z.eqb_neq in B. destruct b; try discriminate. repeat (destruct p; try discriminate). contradiction. }
-    apply Z.eqb_eq in B. subst b. destruct (span_hex t') as [digs rest] eqn:S.
-    destruct (span_hex_app _ _ _ S) as [E F].
-    destruct digs as [|d ds]; [discriminate|]. destruct rest as [|q qs]; [discriminate|].
-    destruct (q =? 125) eqn:Q.
-    2: { exfalso. apply Z.eqb_neq in Q. destruct q; try discriminate. repeat (destruct p; try discriminate). contradiction. }
-    apply Z.eqb_eq in Q. subst q. inversion H; subst. split; [apply hexval_range|].
-    exists (d :: ds). split; [discriminate|]. split; [exact F|]. split; [reflexivity|]. reflexivity. }
-  destruct (c =? 122); [discriminate|].
-  destruct (is_dec c).
-  { destruct t as [|d2 t2]; [discriminate|]. destruct (is_dec d2); [|discriminate].
-    destruct t2 as [|d3 t3]; [discriminate|]. destruct (is_dec d3); [|discriminate].
-    destruct (c - 48 <=? DEC3_LEAD_MAX); discriminate. }
+  { destruct t as [|h1 [|h2 t']]; try exact I.
+    destruct (is_hex h1) eqn:X1; [|exact I]. destruct (is_hex h2) eqn:X2; [|exact I].
+    cbn [andb]. unfold esc_defined. apply hexv_range in X1. apply hexv_range in X2. lia. }
+  destruct (c =? 117).
+  { destruct t as [|b t']; [exact I|]. destruct (b =? 123) eqn:B.
+    2: { apply Z.eqb_neq in B. destruct b; try exact I. repeat (destruct p; try exact I). contradiction. }
+    apply Z.eqb_eq in B. subst b. rewrite UB.
+    destruct (u_bounded_digits t') as [[digs r3]|] eqn:U; [|exact I].
+    destruct r3 as [|q qs]; [exact I|]. destruct (q =? 125) eqn:Q.
+    2: { apply Z.eqb_neq in Q. destruct q; try exact I. repeat (destruct p; try exact I). contradiction. }
+    apply Z.eqb_eq in Q. subst q. unfold esc_defined. eapply u_bounded_value; eassumption. }
+  destruct (c =? 122); [exact I|].
+  destruct (is_dec c) eqn:Dc.
+  { pose proof (is_dec_range _ Dc) as R1.
+    destruct t as [|d2 t2]; [unfold esc_defined; lia|].
+    destruct (is_dec d2) eqn:D2c; [|unfold esc_defined; lia].
+    pose proof (is_dec_range _ D2c) as R2.
+    destruct t2 as [|d3 t3]; [unfold esc_defined; lia|].
+    destruct (is_dec d3) eqn:D3c; [|unfold esc_defined; lia].
+    destruct (dec3_match DEC3_ALTS c d2 d3) eqn:M; [|exact I].
+    unfold esc_defined. exact (dec3_match_range _ _ _ _ fact_dec3 Dc D2c D3c M). }
   destruct (c =? 10).
-  { destruct t as [|b t']; [discriminate|]. destruct b; try discriminate. repeat (destruct p; try discriminate). }
-  destruct (c =? 13); [|discriminate].
-  destruct t as [|b t']; [discriminate|]. destruct b; try discriminate. repeat (destruct p; try discriminate).
+  { destruct t as [|b t']; [unfold esc_defined; lia|]. destruct b; try (unfold esc_defined; lia).
+    repeat (destruct p; try (unfold esc_defined; lia)). }
+  destruct (c =? 13); [|exact I].
+  destruct t as [|b t']; [unfold esc_defined; lia|]. destruct b; try (unfold esc_defined; lia).
+  repeat (destruct p; try (unfold esc_defined; lia)).
 Qed.
 
-(* the callback domains hold exactly outside the two characterised families *)
-Corollary escape_undefined_iff : forall l, ~ esc_defined (decode_escape l) <->
-  (exists v r, decode_escape l = EChar v r /\ UCHAR_MAX < v /\ dec3 l v r) \/
-  (exists v r, decode_escape l = EUtf8 v r /\ MAXUTF < v).
-Proof.
-  intros l. split.
-  - intros N. destruct (decode_escape l) as [c r | v r | v r | r |] eqn:D; simpl in N; try (exfalso; apply N; exact I).
-    + left. destruct (escape_char_domain l v r D) as [R U]. exists v, r. split; [reflexivity|].
-      assert (UCHAR_MAX < v) by lia. auto.
-    + right. destruct (escape_utf8_domain l v r D) as [R _]. exists v, r. split; [reflexivity | lia].
-  - intros [(v & r & D & U & _) | (v & r & D & U)]; rewrite D; simpl; lia.
-Qed.
-
-
+Local Transparent Z.mul Z.add Z.sub Z.pow.
 (* ------------------------------------------------------------------ *)
 (* capture nesting *)
 
@@ -403,8 +436,10 @@ Qed.
 (* non-vacuity *)
 Example ex_calcline : calcline [108; 111; 10; 97; 32; 61; 10] 6 = Some (mk_calc 2 3 [97; 32; 61] 4 6).
 Proof. vm_compute. reflexivity. Qed.
-Example ex_escape : decode_escape [120; 52; 49; 34] = EChar 65 [34] /\ decode_escape [50; 53; 53; 34] = EChar 255 [34].
-Proof. vm_compute. auto. Qed.
+Example ex_escape : decode_escape [120; 52; 49; 34] = EChar 65 [34] /\ decode_escape [50; 53; 53; 34] = EChar 255 [34] /\
+  decode_escape [50; 53; 54; 34] = EReject /\ decode_escape [117; 123; 48; 55; 70; 70; 70; 70; 70; 70; 70; 125; 34] = EUtf8 2147483647 [34] /\
+  decode_escape [117; 123; 56; 48; 48; 48; 48; 48; 48; 48; 125; 34] = EReject.
+Proof. vm_compute. auto 6. Qed.
 Example ex_threshold : too_deep (depth FParens (ctx_local 0) (threshold FParens (ctx_local 0))) = true /\
   too_deep (depth FParens (ctx_local 0) (threshold FParens (ctx_local 0) - 1)) = false /\ 1 <= threshold FParens (ctx_local 0).
 Proof. vm_compute. intuition discriminate. Qed.
